@@ -57,6 +57,12 @@ class Sys(e1.TimedSys):
         self.ttl = cfg["ttl"]
         self.refresh = cfg["refresh"]
         self.pairs = cfg["pairs"]
+        # earlier in this process the same local socket addresses were used with the other transport protocol
+        # (an eventgroup of another service subscribed over TCP where this one uses UDP, and vice versa)
+        for eg in eventgroups(self.sid).values():
+            other = hdr.L4Protocols.TCP if eg.protocol == hdr.L4Protocols.UDP else hdr.L4Protocols.UDP
+            for ttl in (cfg["ttl"], 3, 0):
+                cfg_.Eventgroup(self.sid ^ 0x0101, 7, 7, 9, eg.sockname, other).create_subscribe_entry(ttl)
         self.seam = RandomSeam(Choice())
         self.seam.__enter__()
         self.prot = make_sd(self.loop, timings(SUBSCRIBE_TTL=self.ttl, SUBSCRIBE_REFRESH_INTERVAL=self.refresh))
